@@ -161,7 +161,7 @@ func (o ChainOracle) AfterStep(m *VM, rec *Rec) {
 	m.Probe("chain_rejected")
 	// third sentence of C01: whatever was produced by building, attenuating, sealing (and
 	// serializing / reloading) through the library is accepted under its issuer's key
-	if !t.Hostile && t.Abs != nil && !op.KS.UseMap && op.KS.Raw == "" && op.KS.Key == t.RootKey {
+	if k := m.Key(op.KS.Key); !t.Hostile && t.Abs != nil && !op.KS.UseMap && op.KS.Raw == "" && op.KS.Key == t.RootKey && k != nil && !k.Rotated {
 		m.Violate(o.Prop, "library-built-token-rejected", "a token produced only through the library is rejected under its issuer's key: "+azErr,
 			fmt.Sprintf("op %d: token in slot %d (created by op %d, %d blocks) rejected: %s", rec.I, op.A, t.Created, len(t.Abs.Blocks), errText))
 		return
@@ -544,6 +544,13 @@ func (SealOracle) AfterStep(m *VM, rec *Rec) {
 					m.Probe("seal_revocation_ids_compared")
 					if !same {
 						m.Violate("C09", "seal-changes-revocation-ids", "sealed token has different revocation identifiers", fmt.Sprintf("op %d", rec.I))
+					}
+					// what the sealed token puts on the wire must be the sealed envelope: no next secret
+					if ser, err := nt.B.Serialize(); err == nil {
+						if env, err := ref.DecodeBiscuit(ser); err == nil && (env.NextSecret != nil || env.FinalSignature == nil) {
+							m.Violate("C09", "sealed-token-serializes-unsealed", "the bytes of a sealed token still carry a next secret / no seal signature",
+								fmt.Sprintf("op %d: sealing token in slot %d (reloaded=%v) gave a token whose serialization is not sealed", rec.I, op.A, t.FromBlob > 0))
+						}
 					}
 				}
 			}
